@@ -40,11 +40,12 @@ def gen_plan(rng, nvars=None):
                 break
             ins = rng.sample(avail, min(len(avail), rng.choice([1, 1, 2, 2, 3])))
             rng.shuffle(ins)
-            plan.append({"kind": rng.choice(["c", "c", "c", "t"]), "inp": ins})
+            kind = rng.choice(["c", "c", "c", "t"])
+            plan.append({"kind": kind, "inp": ins, "weak_var": kind == "c" and rng.random() < 0.3})
             avail.append(len(plan))
         params = rng.sample(avail, min(len(avail), rng.choice([0, 1, 1, 2, 3]))) if avail else []
         rng.shuffle(params)
-        plan.append({"kind": "v", "inp": [], "wrapped": True, "shape": rng.choice(SHAPES)})
+        plan.append({"kind": "v", "inp": [], "wrapped": True, "shape": rng.choice(SHAPES), "int_init": rng.random() < 0.3})
         vi = len(plan)
         plan.append({"kind": "p", "inp": [vi]})
         pi = len(plan)
@@ -69,7 +70,7 @@ SPEC_KIND = {"v": "v", "c": "c", "t": "t", "p": "p", "d": "c", "f": "c"}
 class SimRun:
     def __init__(self, plan):
         self.plan, self.n = plan, len(plan)
-        self.nodes, self.vars, self.dist_of_var = {}, {}, {}
+        self.nodes, self.vars, self.dist_of_var, self.weak_vars = {}, {}, {}, {}
         self.draw_log = []
         pending = {}
         for i, p in enumerate(plan, start=1):
@@ -77,13 +78,18 @@ class SimRun:
             if p["kind"] == "v" and not p.get("wrapped"):
                 self.nodes[i] = lsl.Value(jnp.zeros(p["shape"], jnp.float32) + float(i), _name=name)
             elif p["kind"] == "v":
-                pending[i] = jnp.zeros(p["shape"], jnp.float32) + float(i)
+                # (some start values are integer-typed placeholders)
+                pending[i] = jnp.zeros(p["shape"], jnp.int32 if p.get("int_init") else jnp.float32) + i
             elif p["kind"] == "p":
                 pass  # created together with the dist node below
             elif p["kind"] in ("c", "t"):
                 cls = lsl.Calc if p["kind"] == "c" else lsl.TransientCalc
                 ins = [self.nodes[j] for j in p["inp"]]
                 self.nodes[i] = cls(self._fn(i), *ins, _name=name)
+                if p.get("weak_var"):
+                    # a weak variable without a distribution around the calculator (its consumers keep reading the node)
+                    self.weak_vars[i] = lsl.Var(self.nodes[i], name=f"weak{i}")
+                    self.weak_vars[i].var_value_node.name = f"weak{i}_proxy"
             elif p["kind"] == "f":
                 fac = lsl.Dist(self._dist(i), *[self.nodes[j] for j in p["inp"][:-1]], _name=name)
                 fac.at = self.nodes[p["inp"][-1]]
@@ -100,13 +106,14 @@ class SimRun:
                 self.vars[vi] = var
                 self.dist_of_var[vi] = i
         gb = lsl.GraphBuilder(to_float32=False)
-        gb.add(*self.vars.values(), *self.nodes.values())
+        gb.add(*self.vars.values(), *self.weak_vars.values(), *self.nodes.values())
         self.model = gb.build_model()
 
     def _fn(self, i):
         def fn(*xs):
             # inputs may have different shapes: reduce each to its (uniform) scalar code
-            return jnp.asarray(i + 2 * sum(jnp.ravel(jnp.asarray(x))[0] for x in xs), jnp.float32)
+            # (drawn values carry the fraction .25: every consumer floors its inputs, the integer regime stays exact)
+            return jnp.asarray(i + 2 * sum(jnp.floor(jnp.ravel(jnp.asarray(x))[0]) for x in xs), jnp.float32)
         return fn
 
     def _dist(self, i):
@@ -117,7 +124,7 @@ class SimRun:
             batch_shape = ()
 
             def __init__(self, *params):
-                self.params = [float(jnp.ravel(jnp.asarray(p))[0]) for p in params]
+                self.params = [float(jnp.floor(jnp.ravel(jnp.asarray(p))[0])) for p in params]
 
             def log_prob(self, x):
                 return jnp.asarray(0.0, jnp.float32)
@@ -128,21 +135,23 @@ class SimRun:
                 code = float(draw_int(i, r, [int(v) for v in self.params]))
                 run.draw_log.append({"d": i, "tok": tok, "r": r, "params_seen": [int(v) for v in self.params],
                                      "sample_shape": list(sample_shape)})
-                return jnp.zeros(tuple(sample_shape), jnp.float32) + code
+                # a draw of a continuous variable: not an integer
+                return jnp.zeros(tuple(sample_shape), jnp.float32) + code + 0.25
         return FakeDist
 
     def snapshot(self):
-        val, outd, shapes, uniform = [], [], [], True
+        val, outd, shapes, uniform, fracs = [], [], [], True, []
         for i in range(1, self.n + 1):
             nd = self.model.nodes[f"n{i}"]
             a = np.asarray(nd.value, np.float32)
             flat = a.reshape(-1)
             if flat.size and not np.all(flat == flat[0]):
                 uniform = False
-            val.append(int(flat[0]) if flat.size else 0)
+            val.append(int(np.floor(flat[0])) if flat.size else 0)
+            fracs.append(repr(float(flat[0] - np.floor(flat[0]))) if flat.size else "0.0")
             outd.append(bool(nd.outdated))
             shapes.append(list(a.shape))
-        return {"val": val, "outd": outd, "shapes": shapes, "uniform": uniform}
+        return {"val": val, "outd": outd, "shapes": shapes, "uniform": uniform, "fracs": fracs}
 
     def header(self):
         snap = self.snapshot()
@@ -175,6 +184,8 @@ class SimRun:
                 d = self.dist_of_var[s]
                 pi = self.plan[d - 1]["inp"][-1]
                 skip.append({"var": f"var{s}", "dist": f"n{d}", "at": f"n{pi}"}[how])
+            # naming a weak variable without a distribution in `skip` has no effect on the variables it is computed from
+            skip += [f"weak{i}" for i in o.get("skip_weak", [])]
             m.simulate(jax.random.PRNGKey(o["seed"]), skip=skip)
             ev["draws"] = list(self.draw_log)
             ev["order"] = [d["d"] for d in self.draw_log]
@@ -189,9 +200,12 @@ def gen_ops(rng, plan, nops):
     dvals = [i + 1 for i, p in enumerate(plan) if p["kind"] == "v" and p.get("wrapped")]
     ops = []
 
+    weak = [i + 1 for i, p in enumerate(plan) if p.get("weak_var")]
+
     def sim():
         k = rng.randint(0, max(0, len(dvals) - 1))
         return {"ev": "simulate", "seed": rng.randint(0, 10**6),
+                "skip_weak": sorted(rng.sample(weak, rng.randint(0, len(weak)))) if weak and rng.random() < 0.5 else [],
                 "skip": sorted(rng.sample(dvals, k)) if rng.random() < 0.5 else [],
                 "skip_how": rng.choice(["var", "dist", "at"])}
 
